@@ -10,6 +10,7 @@ import (
 
 	"github.com/samber/lo"
 
+	"github.com/fatedier/frp/pkg/config/types"
 	v1 "github.com/fatedier/frp/pkg/config/v1"
 	"github.com/fatedier/frp/pkg/msg"
 	plugin "github.com/fatedier/frp/pkg/plugin/server"
@@ -37,6 +38,7 @@ import (
 func sessRun(user string, script string) string {
 	pst.mu.Lock()
 	pst.wire = nil
+	pst.wireGen++
 	pst.mu.Unlock()
 
 	l, err := net.Listen("tcp", "127.0.0.1:0")
@@ -53,6 +55,11 @@ func sessRun(user string, script string) string {
 	cfg.BindPort = port
 	cfg.Transport.TCPMux = lo.ToPtr(false)
 	cfg.UserConnTimeout = 1
+	// the scenarios ask for stcp proxies (a plugin may still turn one into a tcp proxy with a port of the server's choice:
+	// a small range, away from the ephemeral ports).  Each of the two port managers of a Service otherwise
+	// keeps a 65535-entry table that its cleaning goroutine (never stopped) holds on to for the rest of the process:
+	// ~3 MB per Service, several GB over a long run
+	cfg.AllowPorts = []types.PortsRange{{Start: 13000, End: 13127}}
 	cfg.Transport.TLS.CertFile, cfg.Transport.TLS.KeyFile = siteCert()
 	cfg.HTTPPlugins = append([]v1.HTTPPluginOptions{}, pst.httpRegs...)
 	svr, err := server.NewService(cfg)
